@@ -16,7 +16,8 @@ Record rctx := mkRC { rc_me : N; rc_snap : rsnap; rc_fund : list icept; rc_settl
 (* observed: decision class (0 Drop 1 AskUser 2 AutoAccept 3 Reject 4 Reply 5 Panic 6 Block), responses
    on the bus (0 = ChannelUpdateAcc, 1 = ChannelUpdateRej), machine mutex free afterwards, machine
    afterwards, the own signature carried by the ChannelUpdateAcc *)
-Record robs := mkObs { o_dec : N; o_sent : list N; o_free : bool; o_after : rsnap; o_sig : option tokref;
+Record robs := mkObs { o_dec : N; o_sent : list N; o_free : bool;
+                       o_after : option rsnap (* None: as before *); o_sig : option tokref;
                        o_waited : bool (* the handler took as long as the state watcher's timeout *) }.
 Inductive hcase :=
 | HUpd (c : rctx) (known : bool) (r : rreq) (accept : bool) (o : robs)
@@ -30,6 +31,9 @@ Inductive hcase :=
 (* short form of the states of the file's channel *)
 Definition mkS (id : bytes) (bk ass : list N) (app : option bytes) (v : N) (b : list (list Z))
     (l : list suballoc) (fin : bool) : state := mkState id v (mkAlloc bk ass b l) app [] fin.
+
+Definition RC (me : N) (s : rsnap) (f st : list icept) (busy : bool) : rctx := mkRC me s f st false busy false.
+Definition after_of (c : rctx) (o : robs) : rsnap := match o_after o with Some s => s | None => rc_snap c end.
 
 Definition dec_code (d : decision) : N :=
   match d with Drop => 0 | AskUser => 1 | AutoAccept => 2 | Reject => 3 | Reply => 4 | Panic => 5 | Block => 6 end.
@@ -82,14 +86,14 @@ Section WithTable.
         | AskUser =>
             let '(m', sent, sg) := user_answer (cx_mach cc) (req_upd rq) accept in
             (o_dec o =? 1) && nl_eqb (map resp_code (r_sent res ++ sent)) (o_sent o) && o_free o
-            && mach_eqb m' (conv_snap P sts (rc_me c) (o_after o)) && sig_agrees sg (o_sig o)
+            && mach_eqb m' (conv_snap P sts (rc_me c) (after_of c o)) && sig_agrees sg (o_sig o)
         | Panic => (o_dec o =? 5)
         | Block => (o_dec o =? 6) && negb (o_free o) && nl_eqb (map resp_code (r_sent res)) (o_sent o)
         | d =>
             (o_dec o =? dec_code d) && nl_eqb (map resp_code (r_sent res)) (o_sent o)
             && Bool.eqb (if known then waits V cc rq else false) (o_waited o)
             && Bool.eqb (r_unlocked res) (o_free o)
-            && mach_eqb (r_mach res) (conv_snap P sts (rc_me c) (o_after o))
+            && mach_eqb (r_mach res) (conv_snap P sts (rc_me c) (after_of c o))
             && sig_agrees (match d with AutoAccept => countersigns V cc rq | _ => None end) (o_sig o)
         end
     | HSync c known reach ph tx o =>
@@ -99,7 +103,7 @@ Section WithTable.
         match r_dec res with
         | Panic => (o_dec o =? 5)
         | d => (o_dec o =? dec_code d)
-               && (if known then mach_eqb (r_mach res) (conv_snap P sts (rc_me c) (o_after o)) else true)
+               && (if known then mach_eqb (r_mach res) (conv_snap P sts (rc_me c) (after_of c o)) else true)
         end
     | HResp c u calls returned sent =>
         let cc := cctx c in
